@@ -496,7 +496,7 @@ impl HistCfg {
         Self {
             stable,
             allow_defer_remap: true,
-            allow_interleaved_delete: false,
+            allow_interleaved_delete: true,
             version: *rng.pick_weighted(&[
                 (3, LanceFileVersion::V2_0),
                 (3, LanceFileVersion::V2_1),
